@@ -16,7 +16,7 @@ RULES = {
     "R5": "the yielded set is test_sets[argmin(balance)], balance = |train_pts/test_pts - train_blocks/test_blocks|, lists appended in step",
     "R6": "randomness only via check_random_state(self.random_state) or a forwarded random_state; no global-state RNG call in the package",
 }
-ASSUMPTIONS = ["non-empty folds, balance quality and exact test-set sizes are value-level (declined; an empty first fold is possible on the pinned tree, see DESIGN.md 5)",
+ASSUMPTIONS = ["balance quality and exact test-set sizes are value-level (declined); non-emptiness is claimed only through its necessary guard conditions (R7)",
                "sklearn BaseCrossValidator.split derives train as the complement of _iter_test_indices; KFold/ShuffleSplit.split yield (train, test)"]
 MS = "verde.model_selection"
 BSS, BKF = MS + ".BlockShuffleSplit", MS + ".BlockKFold"
@@ -328,7 +328,57 @@ def r6_rng(ctx):
         ctx.check("R6", "%s|kwargs-forwarded|%s" % (qn, tag), ok, "random_state/test_size travel through **kwargs to the splitter", bad="**kwargs (random_state, test_size) are not forwarded", fn=qn)
 
 
+def r7_partition_guards(ctx):
+    """np.split(arange(n), idx) has only non-empty parts iff idx is strictly increasing inside 1..n-1.  partition_by_sum returns the
+    np.searchsorted(..., side='right') positions of multiples of total // parts in the cumulative sum: position 0 is possible (first
+    element above the ideal sum), position n is not (the ideal values stay below the total).  So two guards are necessary on the way
+    to the return: no repeated split points, and no split point at 0."""
+    qn = "verde.utils.partition_by_sum"
+    ps = ctx.paths(qn)
+    rets = [p for p in ps if p.exit == "return"]
+    for p in rets:
+        v = p.value
+        from_ss = v[0] == "call" and callee(v) == "numpy.searchsorted"
+        if not from_ss:
+            ctx.add("R7", qn + "|split-points", "UNDECIDED", "the split points are not a direct np.searchsorted result: %s" % show(v)[:80], fn=qn)
+            continue
+        side = kw(v, "side")
+        ctx.check("R7", qn + "|searchsorted-side-right", True if side == const("right") else (False if side in (None, const("left")) else None),
+                  "split points are inserted to the right (a part that reaches the ideal sum exactly keeps its last element)",
+                  bad="searchsorted(side='left'): parts that hit the ideal sum exactly lose their last element", fn=qn)
+        guards = [c for c, val in p.conds if val is False]
+        dup = any(any(x[0] == "call" and callee(x) == "numpy.unique" and x[2] == (v,) for x in walk(g)) or any(x[0] == "call" and callee(x) == "numpy.diff" and x[2] and x[2][0] == v for x in walk(g)) for g in guards)
+        zero = False
+        for g in guards:
+            for x in walk(g):
+                if x[0] == "cmp" and x[1] in ("==", "<", "<=", "in", ">", ">=", "!=") and any(y == v or (y[0] == "sub" and y[1] == v) or (y[0] == "call" and y[1][0] == "attr" and y[1][1] == v and y[1][2] == "min") or (y[0] == "call" and callee(y) in ("numpy.min", "numpy.amin") and y[2] == (v,)) for y in (x[2], x[3])) \
+                        and any(is_const(y) and y[1] in (0, 1) for y in (x[2], x[3])):
+                    zero = True
+                if x[0] == "call" and callee(x) == "numpy.diff" and x[2] and x[2][0][0] == "call" and callee(x[2][0]) in ("numpy.concatenate", "numpy.r_", "numpy.append", "numpy.insert", "numpy.hstack"):
+                    zero = True
+        ctx.check("R7", qn + "|rejects-repeated-split-points", True if dup else False, "repeated split points (an empty middle part) raise before the return",
+                  bad="repeated split points are returned: np.split then produces an empty fold", fn=qn)
+        ctx.check("R7", qn + "|rejects-split-point-at-0", True if zero else False, "a split point at 0 (an empty first part) raises before the return",
+                  bad="a split point at 0 is returned when the first element exceeds total // parts: np.split then produces an empty first fold "
+                      "(BlockKFold yields an empty test set, e.g. 50 points in the first block and 1 in each of 3 others, n_splits=2)", fn=qn)
+    if not rets:
+        ctx.add("R7", qn + "|returns", "UNDECIDED", "no return path", fn=qn)
+    many = any(p.exit == "raise" and p.conds and p.conds[-1][1] and p.conds[-1][0][0] == "cmp" and p.conds[-1][0][1] == ">" and p.conds[-1][0][2] == ("param", "parts") for p in ps)
+    ctx.check("R7", qn + "|rejects-more-parts-than-elements", True if many else False, "more parts than elements raise", bad="more parts than elements are accepted", fn=qn)
+    # the caller turns the ValueError into the documented fallback
+    qn2 = BKF + "._iter_test_indices"
+    fb = [p for p in ctx.paths(qn2) if any(e.kind == "handler" and e.data[1] == ("glob", "builtins.ValueError") for e in p.events)]
+    okw = fb and all(any(e.kind == "call" and callee(e.data[0]) == "warnings.warn" for e in p.events) for p in fb)
+    ctx.check("R7", qn2 + "|ValueError-falls-back-with-a-warning", True if okw else (False if not fb else None), "an unbalanceable layout falls back to equal block counts with a warning",
+              bad="the ValueError of partition_by_sum is not caught: BlockKFold raises instead of falling back", fn=qn2)
+
+
+RULES["R7"] = ("partition_by_sum rejects repeated split points and a split point at 0 before returning (necessary for non-empty folds of np.split); "
+               "BlockKFold catches the ValueError and falls back to equal block counts with a warning")
+
+
 def check(ctx):
+    r7_partition_guards(ctx)
     r1_whole_blocks(ctx)
     r2_complement(ctx)
     r3_folds(ctx)
